@@ -42,8 +42,10 @@ def make(p):
                                     'bandwidth_mode': 'constant'},
                           'fit': {'reg': 1e-3, 'iters': p.get('iters', 0), 'verbose': False, 'early_stop_rfm': False}})
     if p['method'] == 'fixed_vector':
-        v = torch.zeros(d)
-        v[p['dseed'] % d] = 1.0
+        # a legitimate fixed direction need not have unit norm
+        gv = torch.Generator().manual_seed(p['dseed'] + 99)
+        v = torch.randn(d, generator=gv) * float(torch.randint(1, 4, (1,), generator=gv))
+        v[p['dseed'] % d] += 2.0
         kw['fixed_vector'] = v
     return X, y, Xv, yv, kw
 
